@@ -450,3 +450,234 @@ func actionBraces(c *Check, g *pgrammar) {
 	c.Decide(len(bad) == 0, "R-action-braces", "peg.peg/"+act.Name+" is '{' <B*> '}' with B → non-brace | '{' B* '}'", pos,
 		"alternatives of the body rule start with disjoint characters, so the rule denotes exactly the brace-balanced texts; the action text is what lies between the outer braces", strings.Join(bad, "; "))
 }
+
+// pmatch: PEG matching of a name-free fragment of the grammar on a short
+// string (used for the capture patterns of the numeric escapes only).
+func pmatch(e *pexpr, s []rune, pos int) (int, bool) {
+	switch e.Op {
+	case "lit":
+		rs := []rune(e.S)
+		if pos+len(rs) > len(s) {
+			return pos, false
+		}
+		for i, r := range rs {
+			c := s[pos+i]
+			if e.Insens {
+				if unicodeLower(c) != unicodeLower(r) {
+					return pos, false
+				}
+			} else if c != r {
+				return pos, false
+			}
+		}
+		return pos + len(rs), true
+	case "class":
+		if pos >= len(s) {
+			return pos, false
+		}
+		in := false
+		for _, rg := range e.Ranges {
+			c := s[pos]
+			if c >= rg[0] && c <= rg[1] {
+				in = true
+			}
+			if e.Insens && (unicodeLower(c) >= unicodeLower(rg[0]) && unicodeLower(c) <= unicodeLower(rg[1])) {
+				in = true
+			}
+		}
+		if in != e.Neg {
+			return pos + 1, true
+		}
+		return pos, false
+	case "dot":
+		if pos < len(s) {
+			return pos + 1, true
+		}
+		return pos, false
+	case "seq":
+		p := pos
+		for _, k := range e.Kids {
+			np, ok := pmatch(k, s, p)
+			if !ok {
+				return pos, false
+			}
+			p = np
+		}
+		return p, true
+	case "alt":
+		for _, k := range e.Kids {
+			if np, ok := pmatch(k, s, pos); ok {
+				return np, true
+			}
+		}
+		return pos, false
+	case "query":
+		if np, ok := pmatch(e.Kids[0], s, pos); ok {
+			return np, true
+		}
+		return pos, true
+	case "star", "plus":
+		p, n := pos, 0
+		for {
+			np, ok := pmatch(e.Kids[0], s, p)
+			if !ok || np == p {
+				break
+			}
+			p = np
+			n++
+		}
+		return p, e.Op == "star" || n > 0
+	case "capture":
+		return pmatch(e.Kids[0], s, pos)
+	case "and":
+		_, ok := pmatch(e.Kids[0], s, pos)
+		return pos, ok
+	case "not":
+		_, ok := pmatch(e.Kids[0], s, pos)
+		return pos, !ok
+	case "action", "nil":
+		return pos, true
+	}
+	panic(undecided{"grammar fragment with " + e.Op + " is not evaluated here"})
+}
+
+func unicodeLower(r rune) rune {
+	if r >= 'A' && r <= 'Z' {
+		return r + 32
+	}
+	return r
+}
+
+// escapeCaptures: R-escape-capture — what the numeric escape alternatives
+// capture: after \0x the longest run of hex digits in either case (at least
+// one); after \ up to three octal digits with a value of at most 0377.
+func escapeCaptures(c *Check, g *pgrammar) {
+	esc := findRule(g, func(rl *prule) bool { return hasCall(rl.Expr, "AddHexaCharacter") })
+	if esc == nil || esc.Expr.Op != "alt" {
+		c.Und("R-escape-capture", "peg.peg/escape rule", "", "the rule with the numeric escape actions was not found or is not a choice")
+		return
+	}
+	pos := fmt.Sprintf("peg.peg:%d", esc.Line)
+	// the numeric alternatives, in order, as one choice; text = what the capture matched
+	type numAlt struct {
+		e      *pexpr
+		method string
+	}
+	var nums []numAlt
+	for _, alt := range esc.Expr.Kids {
+		for _, m := range []string{"AddHexaCharacter", "AddOctalCharacter"} {
+			if hasCall(alt, m) {
+				nums = append(nums, numAlt{alt, m})
+			}
+		}
+	}
+	if len(nums) < 2 {
+		c.Bad("R-escape-capture", "peg.peg/"+esc.Name+" numeric escapes", pos, "fewer than two numeric escape alternatives (hex and octal) found")
+		return
+	}
+	// run: which alternative takes the escape s (s starts after nothing: full text incl. backslash), and the captured text
+	run := func(s string) (method, text string, end int, ok bool) {
+		rs := []rune(s)
+		for _, na := range nums {
+			if na.e.Op != "seq" {
+				continue
+			}
+			p := 0
+			okAll := true
+			capText := ""
+			for _, k := range na.e.Kids {
+				np, ok := pmatch(k, rs, p)
+				if !ok {
+					okAll = false
+					break
+				}
+				if k.Op == "capture" {
+					capText = string(rs[p:np])
+				}
+				p = np
+			}
+			if okAll {
+				return na.method, capText, p, true
+			}
+		}
+		return "", "", 0, false
+	}
+	var bad []string
+	und := ""
+	func() {
+		defer func() {
+			if p := recover(); p != nil {
+				if u, ok := p.(undecided); ok {
+					und = u.msg
+					return
+				}
+				panic(p)
+			}
+		}()
+		n := 0
+		// hex: every digit in both cases, alone and in second position, followed by a non-digit
+		for _, pre := range []string{`\0x`} {
+			for _, d := range "0123456789abcdefABCDEF" {
+				for _, d2 := range "0fF9aA" {
+					for _, tail := range []string{"", "g", "'", " "} {
+						s := pre + string(d) + string(d2) + tail
+						m, text, end, ok := run(s)
+						n++
+						want := string(d) + string(d2)
+						if !ok || m != "AddHexaCharacter" || text != want || end != len([]rune(pre))+2 {
+							bad = append(bad, fmt.Sprintf("the escape %s is read as %s(%q) consuming %d characters (expected AddHexaCharacter(%q))", s, m, text, end, want))
+						}
+					}
+				}
+			}
+		}
+		// octal: all digit strings of length 1..4
+		digits := "0123456789"
+		var gen func(prefix string, l int)
+		gen = func(prefix string, l int) {
+			if len(prefix) > 0 {
+				s := `\` + prefix
+				isOct := func(b byte) bool { return b >= '0' && b <= '7' }
+				want := 0
+				switch {
+				case len(prefix) >= 3 && prefix[0] <= '3' && isOct(prefix[0]) && isOct(prefix[1]) && isOct(prefix[2]):
+					want = 3
+				case len(prefix) >= 2 && isOct(prefix[0]) && isOct(prefix[1]):
+					want = 2
+				case isOct(prefix[0]):
+					want = 1
+				}
+				if !strings.HasPrefix(prefix, "0x") {
+					m, text, end, ok := run(s)
+					n++
+					if want == 0 {
+						if ok {
+							bad = append(bad, fmt.Sprintf("the escape %s is accepted as %s(%q); it is not an octal escape", s, m, text))
+						}
+					} else if !ok || m != "AddOctalCharacter" || text != prefix[:want] || end != 1+want {
+						bad = append(bad, fmt.Sprintf("the escape %s is read as %s(%q) (expected AddOctalCharacter(%q))", s, m, text, prefix[:want]))
+					}
+				}
+			}
+			if l == 0 {
+				return
+			}
+			for _, d := range digits {
+				gen(prefix+string(d), l-1)
+			}
+		}
+		gen("", 4)
+		if n < 1000 {
+			bad = append(bad, "too few escapes evaluated")
+		}
+	}()
+	if und != "" {
+		c.Und("R-escape-capture", "peg.peg/"+esc.Name+" numeric escapes", pos, und)
+		return
+	}
+	if len(bad) > 6 {
+		bad = append(bad[:6], fmt.Sprintf("… and %d more", len(bad)-6))
+	}
+	c.Decide(len(bad) == 0, "R-escape-capture", "peg.peg/"+esc.Name+" numeric escapes capture the documented digits", pos,
+		"\\0x takes the longest run of hex digits in either case; \\ takes up to three octal digits with value ≤ 0377; the captured text is what the decoder receives", strings.Join(bad, "; "))
+}
